@@ -9,6 +9,10 @@ EXTENSIONS = [
          text="X02: a Session as a dictionary determined by the set of files added since the last reset (add DEX / add APK / reset histories of <= 3 calls, TLC: SetDetermined); every history replayed on "
               "a real Session (vf/props/x02.py), isOpen / get_objects_dex / get_all_apks / get_nb_strings validated by SessionStore_Trace; finding: the answers depend on the order of the add calls when a DEX "
               "file is added on its own and inside an APK (analyzed_vms is keyed by the DEX digest and overwritten)"),
+    dict(name="tlc+CallGraph", path="/verif/spec/CallGraph.tla",
+         text="X03: Analysis.get_call_graph as a function of the call relation, the methods the filters select and no_isolated (sources, nodes, edges; TLC: EdgesAreCalls, EndpointsAreNodes, NodesJustified, "
+              "NoIsolated, AllSelected, Whole, and the action property Monotone over every call relation of 3 methods with code + 1 external method); every enumerated query replayed on a generated program "
+              "(vf/props/x03.py), class-filter and whole-program queries on the shipped DEX files, validated by CallGraph_Trace (nodes, edges, each once, external attribute); no finding"),
 ]
 
 
